@@ -346,13 +346,125 @@ fn run_twin() {
     }
 }
 
+// native sketching path used by the Python factory: ComputeParameters (builder) -> Signature::from_params
+// (build_template: tree-backed sketches) -> Signature::add_sequence / add_protein -> each sketch as it is,
+// and as `signature_first_mh` would hand it to Python (From<&KmerMinHashBTree> for KmerMinHash).
+//   native <k,k,..> <seed> <protein> <dayhoff> <hp> <dna> <num> <track> <scaled> <d|p> <force> S <hexseq>..
+fn unhex(t: &str) -> Option<Vec<u8>> {
+    if t == "-" {
+        return Some(vec![]);
+    }
+    if t.len() % 2 != 0 {
+        return None;
+    }
+    (0..t.len()).step_by(2).map(|i| u8::from_str_radix(&t[i..i + 2], 16).ok()).collect()
+}
+
+fn run_sketch() {
+    use sourmash::cmd::ComputeParameters;
+    use sourmash::signature::Signature;
+    use sourmash::sketch::Sketch;
+    let stdin = io::stdin();
+    let stdout = io::stdout();
+    let mut out = stdout.lock();
+    for line in stdin.lock().lines() {
+        let line = line.unwrap();
+        let w: Vec<&str> = line.split_whitespace().collect();
+        let res: String = (|| -> Option<String> {
+            if w.first()? == &"#" {
+                return Some("#".to_string());
+            }
+            if w.first()? != &"native" || w.len() < 13 || w[12] != "S" {
+                return None;
+            }
+            let ks: Vec<u32> = w[1].split(',').map(|x| x.parse::<u32>().ok()).collect::<Option<Vec<_>>>()?;
+            let seed = w[2].parse::<u64>().ok()?;
+            let flag = |i: usize| -> Option<bool> {
+                match w[i] {
+                    "0" => Some(false),
+                    "1" => Some(true),
+                    _ => None,
+                }
+            };
+            let (pr, dy, hp, dna) = (flag(3)?, flag(4)?, flag(5)?, flag(6)?);
+            let num = w[7].parse::<u32>().ok()?;
+            let track = flag(8)?;
+            let scaled = w[9].parse::<u64>().ok()?;
+            let prot_input = match w[10] {
+                "d" => false,
+                "p" => true,
+                _ => return None,
+            };
+            let force = flag(11)?;
+            let seqs: Vec<Vec<u8>> = w[13..].iter().map(|t| unhex(t)).collect::<Option<Vec<_>>>()?;
+            let params = ComputeParameters::builder()
+                .ksizes(ks)
+                .seed(seed)
+                .protein(pr)
+                .dayhoff(dy)
+                .hp(hp)
+                .dna(dna)
+                .num_hashes(num)
+                .track_abundance(track)
+                .scaled(scaled)
+                .build();
+            let mut sig = Signature::from_params(&params);
+            for s in &seqs {
+                let r = if prot_input { sig.add_protein(s) } else { sig.add_sequence(s, force) };
+                if r.is_err() {
+                    return Some("err".to_string());
+                }
+            }
+            let mut recs = vec![];
+            for sk in sig.sketches() {
+                match sk {
+                    Sketch::LargeMinHash(mh) => {
+                        let v: KmerMinHash = (&mh).into();
+                        let ab = match mh.abunds() {
+                            Some(a) => join(&a),
+                            None => "-".to_string(),
+                        };
+                        let abv = match v.abunds() {
+                            Some(a) => join(&a),
+                            None => "-".to_string(),
+                        };
+                        recs.push(format!(
+                            "{}:{}:{}:{}:{}:{}:{}:{}:{}/{}:{}:{}:{}:{}",
+                            mh.ksize(),
+                            hf_code(mh.hash_function()),
+                            mh.num(),
+                            mh.max_hash(),
+                            mh.seed(),
+                            mh.track_abundance() as u8,
+                            mh.md5sum(),
+                            join(&mh.mins()),
+                            ab,
+                            v.num(),
+                            v.max_hash(),
+                            v.md5sum(),
+                            join(&v.mins()),
+                            abv
+                        ));
+                    }
+                    _ => recs.push("other".to_string()),
+                }
+            }
+            Some(format!("ok {}", recs.join("|")))
+        })()
+        .unwrap_or_else(|| "bad-op".to_string());
+        writeln!(out, "{}", res).unwrap();
+        out.flush().unwrap();
+    }
+}
+
 fn main() {
     let args: Vec<String> = std::env::args().collect();
     match args.get(1).map(|s| s.as_str()) {
         Some("twin") => run_twin(),
         Some("ani") => ani::run(),
+        Some("sketch") => run_sketch(),
         _ => {
-            eprintln!("usage: smharness <twin|ani>");
+            eprintln!("usage: smharness <twin|ani|sketch>");
             std::process::exit(2);
         }
     }
